@@ -73,6 +73,8 @@ type aOracles struct {
 	pfx      string
 }
 
+const reinclNonceDelta = 7777
+
 func runAlph(c aCase, o aOracles) (*vh.Violation, vh.Outcome) {
 	aMu.Lock()
 	defer aMu.Unlock()
@@ -270,6 +272,7 @@ func runAlph(c aCase, o aOracles) (*vh.Violation, vh.Outcome) {
 		return f
 	}
 	mkEmit := func(i int, x aOp) {
+		sim.aheadHold = false // the events the count was ahead by are (some of) the ones that appear now
 		tx := &aTx{id: simHash("tx", len(txs)+1)}
 		n := 1 + x.D%3 // a transaction can make the governance contract publish several messages
 		if x.K == "burst" {
@@ -450,7 +453,10 @@ func runAlph(c aCase, o aOracles) (*vh.Violation, vh.Outcome) {
 						nb := newBlock(maxAge + 61000 + int64(len(sim.blocks))) // a timestamp of its own: tells the two inclusions apart
 						t.reincl = nb
 						for _, m := range t.msgs {
-							ev := &simEvent{Contract: sim.govAddr, BlockHash: nb.Hash, TxId: t.id, EventIndex: 0, Fields: msgFields(m.truth), Truth: m.truth}
+							// the copy in the new block is told apart from the orphaned copy by its nonce
+							tr := *m.truth
+							tr.Nonce += reinclNonceDelta
+							ev := &simEvent{Contract: sim.govAddr, BlockHash: nb.Hash, TxId: t.id, EventIndex: 0, Fields: msgFields(&tr), Truth: m.truth}
 							sim.govEvents = append(sim.govEvents, ev)
 							sim.txEvents[t.id] = append(sim.txEvents[t.id], ev)
 							m.hold = false
@@ -466,7 +472,11 @@ func runAlph(c aCase, o aOracles) (*vh.Violation, vh.Outcome) {
 		case "pagesize":
 			sim.pageSize = 1 + x.A%5
 		case "countahead":
-			sim.countAhead = 1 + x.A%2
+			if x.A >= 2 {
+				sim.aheadHold = true // until the next emit
+			} else {
+				sim.countAhead = 1 + x.A%2
+			}
 			hostile = true
 		}
 		sim.mu.Unlock()
@@ -500,6 +510,13 @@ func runAlph(c aCase, o aOracles) (*vh.Violation, vh.Outcome) {
 				return inconclusive("reobserve-not-handled")
 			}
 		}
+		if x.K == "countahead" && x.A >= 2 {
+			// while the count is held ahead every round asks for a page (and gets nothing): there is no quiet state to wait
+			// for, two rounds are enough for the watcher to have seen the count
+			c0 := nKind("count")
+			waitFor(3*time.Second, func() bool { return nKind("count") >= c0+2 })
+			continue
+		}
 		if !settle() {
 			return inconclusive("step-did-not-settle")
 		}
@@ -516,6 +533,7 @@ func runAlph(c aCase, o aOracles) (*vh.Violation, vh.Outcome) {
 		setOp(len(c.Ops))
 		sim.mu.Lock()
 		sim.height += 260
+		sim.aheadHold = false
 		sim.mu.Unlock()
 		for k := 0; k < 3; k++ {
 			if !settle() {
@@ -589,6 +607,13 @@ func runAlph(c aCase, o aOracles) (*vh.Violation, vh.Outcome) {
 		blk := t.block
 		if t.reincl != nil && m.Timestamp.UnixMilli() == t.reincl.TsMs {
 			blk = t.reincl
+		}
+		// ... and the event must be that block's own copy
+		if t.reincl != nil {
+			fromNew := m.Nonce == am.truth.Nonce+reinclNonceDelta
+			if (blk == t.reincl) != fromNew {
+				return vh.V("C08/orphaned-block-event-forwarded", "op %d (%s path): tx %s was orphaned and included again; the forwarded message carries the timestamp of block %s but is the event of the other inclusion (nonce %d)", a.op, path, txid[:12], blk.Hash[:10], m.Nonce), out
+			}
 		}
 		// last answers before the message arrived
 		lastMain, haveMain := false, false
@@ -689,10 +714,15 @@ func genAlph(t *rapid.T, liveness bool) aCase {
 	if !liveness {
 		kinds = append(kinds, "emit+reobserve", "emit+reobserve")
 	}
+	kinds = append(kinds, "countahead+emit")
 	op := rapid.Custom(func(t *rapid.T) []aOp {
 		k := rapid.SampledFrom(kinds).Draw(t, "k")
 		one := func(o aOp) []aOp { return []aOp{o} }
 		switch k {
+		case "countahead+emit":
+			// the count runs two events ahead of what can be paged out; then exactly two events do appear, so that the count
+			// the node reports does not move although the cursor is still behind it
+			return []aOp{{K: "countahead", A: 2}, {K: "emit", A: 0, B: rapid.IntRange(0, 2).Draw(t, "cl"), C: 0, D: rapid.SampledFrom([]int{1, 4, 7, 10}).Draw(t, "d")}, {K: "advance", A: 3}}
 		case "emit+reobserve":
 			// a transaction with several events (messages of different levels, optionally a look-alike of another contract
 			// as its last event), some blocks, then a re-observation request for exactly that transaction
